@@ -104,7 +104,14 @@ def _build(case, ctx):
             comp = {int(z): c for z, c in case["species"][i]["comp"].items()}
             arg[keys[i]] = Substance(keys[i], composition=comp)
     rsys = ReactionSystem.from_string(text, arg)
-    odesys, extra = get_odesys(rsys)
+    b = case.get("builder")
+    if b:
+        # optional builder arguments that leave the physical system unchanged: variables scaled inside the solver
+        from pyodesys.symbolic import ScaledSys
+        odesys, extra = get_odesys(rsys, SymbolicSys=ScaledSys, dep_scaling=b["dep_scaling"],
+                                   indep_scaling=b["indep_scaling"])
+    else:
+        odesys, extra = get_odesys(rsys)
     return text, rsys, odesys, extra
 
 
@@ -121,6 +128,9 @@ def _labels(case, ctx, S):
         ctx.label("reagents=%d" % min(stc["reagents"], 3), "inact_rxns=%d" % min(stc["inact_rxns"], 4))
     if case["t0"] != 0:
         ctx.label("t0!=0")
+    b = case.get("builder")
+    if b:
+        ctx.label("ScaledSys", "dep_scaling=%g" % b["dep_scaling"], "indep_scaling=%g" % b["indep_scaling"])
     return stc
 
 
@@ -154,16 +164,31 @@ def _euler_clause(case, ctx, cb, t, state, keys, text, where, tag=None):
     eps = Fraction(1, 10 ** 12) * (S + hq * sum(aterms))
     # comp_i[e]*y_i = total_e - sum_{j != i} comp_j[e]*y_j <= total_e + eps*sum_j comp_j[e]  (f conserves e exactly)
     W = sum(v for cj in G.comps(case) for z, v in cj.items() if z != 0)
-    for i in range(n):
-        y1 = y[i] + hq * f[i]
-        if y1 < -eps:
-            ctx.fail("euler_step_negative", text=text, species=keys[i], h=hf, state=yd, at=tag or where, after=float(y1),
-                     eps=float(eps), f=float(f[i]))
-            return
-        if y1 > bounds[i] + eps * W:
-            ctx.fail("euler_step_above_bound", text=text, species=keys[i], h=hf, state=yd, at=tag or where, after=float(y1),
-                     bound=float(bounds[i]), eps=float(eps))
-            return
+
+    def leaves(step):
+        """(clause, detail) of the first component that an explicit Euler step of that size takes out of [0, bound]."""
+        for i in range(n):
+            y1 = y[i] + step * f[i]
+            if y1 < -eps:
+                return "euler_step_negative", dict(species=keys[i], after=float(y1), eps=float(eps), f=float(f[i]))
+            if y1 > bounds[i] + eps * W:
+                return "euler_step_above_bound", dict(species=keys[i], after=float(y1), bound=float(bounds[i]),
+                                                      eps=float(eps))
+        return None
+
+    # With ScaledSys(indep_scaling=u) the callback works on the pre-processed (scaled) variables and answers in the
+    # solver's scaled time t*u.  Whether the advertised step is meant in that internal time (it is the natural
+    # `first_step` of the integrator) or in the caller's time is not stated anywhere, so the step is read in the
+    # callback's own time scale: h/u in the caller's units.  (Reading it as physical time would flag every u > 1 on
+    # the unchanged tree: an ambiguity of the interface, not a listed property.)
+    u = (case.get("builder") or {}).get("indep_scaling", 1.0)
+    if u != 1:
+        ctx.label("euler_step_read_in_scaled_time")
+        hq = hq / Fraction(u)
+    bad = leaves(hq)
+    if bad is not None:
+        ctx.fail(bad[0], text=text, h=hf, state=yd, at=tag or where, indep_scaling=u, **bad[1])
+        return
     ctx.label("euler_%s:%s" % (tag or where, "h=1" if hf == 1 else "h<1"))
     if tag is not None:
         # which species limits the exact step (smallest y/|f| among decreasing species, if below 1)?
@@ -233,8 +258,11 @@ def judge(case, ctx, exact, kind, agree=None, amp=1.0):
                           tag="scarce")
 
     # ---- integration -----------------------------------------------------------------------------------------
+    # pyodesys hands atol to the integrator as is, i.e. for the scaled variables y*dep_scaling: the same physical
+    # request atol = 1e-10*S is atol*dep_scaling inside
+    dep_scaling = float((case.get("builder") or {}).get("dep_scaling", 1.0))
     res = sut(odesys.integrate, np.array(tout, dtype=float), dict(c0d), integrator="scipy",
-              atol=RTOL * Sf, rtol=RTOL, nsteps=50000)
+              atol=RTOL * Sf * dep_scaling, rtol=RTOL, nsteps=50000)
     if is_err(res):
         if res.type == "RuntimeError" and "failed" in res.msg:
             ctx.skip("solver_failed")
@@ -357,7 +385,8 @@ def check_bimol(case, ctx):
 
 
 SUBCHECKS = [
-    SubCheck("net", check_net, strategy=G.networks(max_species=7, max_rxns=8, decades=8), quick=900, thorough=30000,
+    SubCheck("net", check_net, strategy=G.networks(max_species=7, max_rxns=8, decades=8, scaled=True), quick=900,
+             thorough=30000,
              rule="first-order networks, <= 7 species, <= 8 reactions, constants over 8 decades; oracle exp(M(t-t0)) c0",
              tolerances=TOLERANCES),
     SubCheck("net_wide", check_net_wide, strategy=G.networks(max_species=10, max_rxns=12, decades=12), quick=150,
